@@ -34,8 +34,8 @@ Verdict(r) ==
     [] op = "even" -> IF r.code = B3(Even(a)) THEN OK ELSE "even() wrong"
     [] op = "exp" -> AcceptExp(a, o)          \* DecimalExp: within two units in the last place of the exact value
     [] op = "log" -> AcceptLn(a, o)
-    [] OTHER -> \* non-integer powers: accuracy not modelled yet; finiteness is
-                IF o.k = "num" /\ ~o.fin THEN "an infinite or NaN value was produced" ELSE Unspec
+    [] op = "pow" -> AcceptPow(a, r.b, o)     \* DecimalExp: e^(b ln a) enclosed; within two units in the last place
+    [] OTHER -> "unknown operation"
 
 VARIABLE i
 Init == i \in 1..Len(Recs)
